@@ -57,7 +57,7 @@ def is_width(term, v, conds=()):
     return True
 
 
-def decoder_total(ctx, rule, inst, o, inp, allowed, site=None, outs=(), width=None):
+def decoder_total(ctx, rule, inst, o, inp, allowed, site=None, outs=(), width=None, same_width=None):
     """The decoder must accept every output of the encoder: a condition on its accepting path that
     mentions the input may only be one of the listed range/type checks, a width check (any
     comparison with len(input); exactness is the -width rule's business), or a mere branch (the
@@ -75,6 +75,13 @@ def decoder_total(ctx, rule, inst, o, inp, allowed, site=None, outs=(), width=No
             if isinstance(r, Const) and bool(r.v) != p:
                 extra.append(show(t, maxdepth=4) + "=" + str(p) + " (false for the encoder's own width %s)" % show(width, maxdepth=3))
                 continue
+            if same_width is not None and not isinstance(r, Const) and is_app(t, "Eq", "NotEq") and len(t.args) == 2 \
+                    and p == (t.f == "Eq") and any(a == mk_app("len", (inp,)) for a in t.args):
+                # len(input) == T on the accepting path: T has to be the width the encoder produces, in whatever spelling
+                T = [a for a in t.args if a != mk_app("len", (inp,))][0]
+                if not same_width(T):
+                    extra.append(show(t, maxdepth=4) + "=" + str(p) + " (%s is not the width the encoder produces, %s)" % (show(T, maxdepth=3), show(width, maxdepth=3)))
+                    continue
         if (t, p) in allowed or is_app(t, "isinstance"):
             continue
         if is_app(t, "Eq", "NotEq", "Lt", "LtE", "Gt", "GtE") and any(is_app(a, "len") for a in t.args):
@@ -177,7 +184,8 @@ def integer_group(ctx, world, ev):
                        (mk_app("LtE", (Const(0), i_)), True), (mk_app("Lt", (i_, mod_sym)), True), (mk_app("GtE", (i_, Const(0))), True),
                        (mk_app("GtE", (i_, mod_sym)), False), (mk_app("Lt", (i_, Const(0))), False),
                        (App("And", (mk_app("LtE", (Const(0), i_)), mk_app("Lt", (i_, mod_sym)))), True)}
-            decoder_total(ctx, "K2-total", "%s.%s" % (gname, meth_dec), o, b, allowed, (g.cls.mod.relpath, 0, meth_dec), outs, width=wf)
+            decoder_total(ctx, "K2-total", "%s.%s" % (gname, meth_dec), o, b, allowed, (g.cls.mod.relpath, 0, meth_dec), outs, width=wf,
+                          same_width=lambda T, o=o: T == wf or is_width(T, mod_sym, conds_of(o)))
     # elements
     base = f.get("Base")
     e = ev.new_obj(base.cls, st)
@@ -197,8 +205,7 @@ def integer_group(ctx, world, ev):
     b = Sym("b", "bytes")
     outs = ev.run_method(g, "bytes_to_element", [b], st=st.fork())
     for o in session.rets(outs):
-        vals = [v for v in o.state.heap[o.value.oid].values() if v != g] if isinstance(o.value, Obj) else []
-        ok = vals == [mk_app("be2int", (b,))]
+        ok = gm.int_element_value(st, g, o.state, o.value) == mk_app("be2int", (b,))
         ctx.ob("K3-decoder", "%s bytes_to_element" % gname, ok, "big-endian integer (inverse of to_bytes)" if ok else
                "element decoder is not the big-endian integer of the input")
         i_ = mk_app("be2int", (b,))
